@@ -70,6 +70,34 @@ LeeMask(lev, cen2, k, b, t) ==
         tt == IF t.set THEN 2 * t.x ELSE cen2[Len(cen2)]
     IN  IF cen2[k] <= bb /\ cen2[k] >= tt THEN Q(1) ELSE Q(0)
 
+\* ------------------------------------------- the documented partial-layer rules
+\* The statement leaves open what a layer gets that the window covers only in part; each contribution documents ITS rule
+\* and is bound to it (clause partial_layer_rule): the grey haze WEIGHTS its opacity with the fraction of the layer (in log
+\* pressure) that lies inside the window (FlatFrac: "the weighted mie opacity"), the Lee haze SELECTS layers by their layer
+\* pressure (LeeMask).  Consequence for the grey haze (MC_Clouds!WindowExtentConserved): the extinction integrated over
+\* log pressure is the declared magnitude times the extent of the declared window inside the atmosphere -- a haze
+\* thinner than a layer carries what its extent amounts to, no more.
+PartialLayers(lev, b, t) == {k \in 1..NLay(lev) : ~WhollyInside(lev, k, WinLo(lev, b, t), WinHi(lev, b, t))
+                                                  /\ ~WhollyOutside(lev, k, WinLo(lev, b, t), WinHi(lev, b, t))}
+OverlapPos(lev, k, b, t) == CMax(0, CMin(WinHi(lev, b, t), lev[k]) - CMax(WinLo(lev, b, t), lev[k + 1]))
+\* on logged observations: m = round(fraction * S); the positions are roundings of the real log-pressures, each off by
+\* at most pu/2 units (pu = 0: exact positions), so that the overlap ov and the width w are off by at most pu each:
+\*     | m * w - ov * S |  <=  2 * pu * S  +  w          (products beyond 32 bits: Dec)
+FlatRuleOk(lev, k, b, t, m, S, pu) ==
+    LET w   == lev[k] - lev[k + 1]
+        mw  == DMul(DInt(m), DInt(w))
+        os  == DMul(DInt(OverlapPos(lev, k, b, t)), DInt(S))
+        tol == DAdd(DMul(DInt(2 * pu), DInt(S)), DInt(w))
+    IN  m >= 0 /\ DLe(mw, DAdd(os, tol)) /\ DLe(os, DAdd(mw, tol))
+\* (a declared bound that coincides with a layer pressure is a measure-zero case: selected or not, both readings pass)
+LeeRuleOk(lev, cen2, k, b, t, m, S) ==
+    LET bb == IF b.set THEN 2 * b.x ELSE cen2[1]
+        tt == IF t.set THEN 2 * t.x ELSE cen2[Len(cen2)]
+        in == cen2[k] <= bb /\ cen2[k] >= tt
+        edge == in /\ ((b.set /\ cen2[k] = bb) \/ (t.set /\ cen2[k] = tt))
+        near(v) == m >= v - 1 /\ m <= v + 1
+    IN  IF edge THEN near(S) \/ near(0) ELSE IF in THEN near(S) ELSE near(0)
+
 \* ------------------------------------ several contributions in one tangent layer
 \* Optical depths add.  The model evaluates the contributions of a tangent layer one after the
 \* other (any order) and may stop early once the layer is opaque (documented cut-off:
